@@ -1,7 +1,7 @@
 from campaigns_util import B
 
 SPEC = {
-    "pkg": "props/c10", "level": "exploration",
+    "pkg": "props/c10", "level": "exploration", "bins": ["ts-server"],
     "rule": ("rapid state machines (t.Repeat) on one tsi.IndexBuilder/MergeSetIndex per case, built as engine/partition.go builds it, on /dev/shm: "
              "insert batches (known + new series, shared prefixes, protocol separators, bytes 0-2, unicode, invalid UTF-8, several measurements, "
              "rare 66-140 series batches sharing a tag value), flush, clear caches, close/reopen (same objects or restart with next logical clock), "
@@ -10,12 +10,25 @@ SPEC = {
              "force over the model with Go regexp unanchored matching, absent tag = ''. history campaigns: a case is non-trivial when a known series "
              "is written again after a cache clear or a reopen; predicate campaigns (ladder eq -> +!= -> +literal/anchored regex -> full regex): when a "
              "search mixes >= 2 operators (of = != =~ !~ AND OR) or uses a regex that is neither literal nor anchored literal, over >= 5 series of the measurement, at least "
-             "one lacking a referenced tag; distinct = hash of the whole operation list"),
+             "one lacking a referenced tag; distinct = hash of the whole operation list. "
+             "bb_predicates (black box): one real ts-server per process (ptnum-pernode 1 or 3), kept across cases; every case writes 8-60 series of one or two fresh measurements "
+             "(3-4 tag keys of a pool with shared prefixes, protocol separators, quotes, UTF-8; some series lack some keys; one point per series) through /write, optionally forces a flush, "
+             "optionally adds 3-30 more series to the same measurements (flushed or not), awaits the unfiltered series listing, and evaluates 4-9 generated predicates per phase (same generator and "
+             "same syntactic known-finding exclusions as the library campaigns, rung drawn per predicate; AND/OR mixes always parenthesised) through every read path, each statement executed twice: "
+             "select .. group by *, select count(), ungrouped select, show series where, show tag values with key = / in (..) where, show tag values cardinality, show tag keys [where], "
+             "show series [exact] cardinality where, and - once everything is flushed - show series / show tag values under the Exact_Statistic_Query hint; each answer must equal brute force over "
+             "the written series (absent tag = '', Go regexp, unanchored). A wrong answer is re-run for 13 s and counts only if it stays wrong. Non-trivial: predicate mixes >= 2 operators or uses a "
+             "regex that is neither literal nor anchored literal, over >= 5 series of the measurement with >= 1 lacking a referenced tag, selecting a strict non-empty subset; distinct = hash of (series, predicates)"),
     "assumptions": [
         "series reach the index as the write path builds them: non-empty tag keys/values, tags sorted and unique, measurement name with version suffix",
         "a search is judged only after a synchronous IndexBuilder.Flush of pending items (visibility delay of unflushed items and the <=10 s staleness "
         "of the tag-filter cache after a background flush are not part of the property; the harness bumps the cache generation itself after each flush)",
         "ids are compared only for equality/uniqueness; concurrent creation of one key from two writers is not exercised",
+        "bb_predicates: HTTP 204 is the acknowledgement; new series are awaited through the unfiltered `show series from <m>` before any predicate is evaluated; a read that becomes right "
+        "within 13 s is tolerated and counted (late_read_*: the tag-filter result cache of the index is invalidated up to 10 s after a background index flush); a key that no series of the "
+        "measurement carries is compared through the listing statements only (the query layer looks an unknown key up as a field); the predicate is judged on the tree the server's own "
+        "(yacc) parser builds, and only when the store-side parser reads the printed text as the same tree; tag keys/values are printable ASCII without backslash plus a few UTF-8 texts; "
+        "exact-hint listings are compared only when every row of the measurement is in flushed files (they are served from file metadata)",
     ],
     "campaigns": [
         {"name": "history", "run": "^TestHistory$", "quick": B(250, 3), "thorough": B(4000, 3, 5400)},
@@ -24,16 +37,20 @@ SPEC = {
         {"name": "pred_neq", "run": "^TestPredNeq$", "quick": B(250, 2), "thorough": B(4000, 2, 5400)},
         {"name": "pred_regex_literal", "run": "^TestPredRegexLit$", "quick": B(250, 3), "thorough": B(4000, 3, 5400)},
         {"name": "pred_regex_full", "run": "^TestPredRegexFull$", "quick": B(150, 4), "thorough": B(2200, 4, 5400)},
+        # black box (real server); kept last so that the seeds of the library campaigns do not move
+        {"name": "bb_predicates", "run": "^TestBBTagPredicates$", "quick": B(14, 4, 600, shrinktime="20s"), "thorough": B(230, 6, 3000, shrinktime="120s")},
     ],
+    "max_parallel": 20,
 }
 
 META = {
-    "engine": "lib-rapid",
+    "engine": "lib-rapid + bb-server",
     "technique": "model-based stateful property testing (rapid state machine against a reference map + brute-force predicate evaluation)",
     "text": ("Generated histories of insert / flush / cache clear / close-reopen / lookup / search on one series index are executed through the exported "
              "index API; identifiers must be unique, stable and never shared, and every search and listing must equal brute-force evaluation over the "
              "written series. Predicates are explored as a ladder of sub-campaigns; known-finding classes are left out by construction and counted. "
-             "Exploration: finds counterexamples, never proves absence."),
+             "The bb_predicates sub-campaign drives the same predicates through the real server's statements (select, show series / tag values / tag keys / cardinalities, each executed "
+             "twice) over freshly written measurements and compares with the same brute force. Exploration: finds counterexamples, never proves absence."),
     "note": ("Trusts Go's regexp package as the reference for regular expressions and the harness' own model. Concurrent writers, deletion (drop series) and "
-             "tag arrays are not covered; the column-store index variant is not covered."),
+             "tag arrays are not covered; the column-store index variant is not covered. Black box: one shard group, no deletes, no restart; reads that are wrong for less than 13 s are tolerated."),
 }
